@@ -122,10 +122,42 @@ def _leads_only_to_err(F, b, start):
     """Every return reachable from `start` carries Err (assignments to _0 on the way are Err aggregates / from_residual / always-Err calls)."""
     blocks = b.reachable_from(start)
     saw = False
+
+    def errish_temp(op, use_bb):
+        """`_0 = move tmp` where, on every way from `start`, tmp was last made an error (the result place of a helper that
+        was spliced into this function is a temporary of the caller)."""
+        p = op_place(op)
+        if p is None or p["p"]:
+            return False
+        defs_in = []
+        for dbb, idx, kind, payload in b.defs(p["l"]):
+            if dbb not in blocks:
+                continue
+            if kind == "assign" and payload["k"] == "agg" and payload.get("vname") == "Err":
+                defs_in.append(dbb)
+            elif kind == "call" and (strip_generics(callee_def(payload)).endswith("err_exit_code") or strip_generics(callee_def(payload)).endswith("from_residual")):
+                defs_in.append(dbb)
+            else:
+                return False
+        if not defs_in:
+            return False
+        # every path from start to the use passes one of those definitions
+        seen, work = set(), [start]
+        while work:
+            x = work.pop()
+            if x in seen or x in defs_in:
+                continue
+            seen.add(x)
+            if x == use_bb:
+                return False
+            work.extend(y for y in b.succ(x) if y in b.normal_blocks())
+        return True
     for bb in blocks:
         for s in b.stmts(bb):
             if s["k"] == "assign" and s["p"]["l"] == 0 and not s["p"]["p"]:
                 if s["r"]["k"] == "agg" and s["r"].get("vname") == "Err":
+                    saw = True
+                elif s["r"]["k"] == "use" and errish_temp(s["r"]["op"], bb):
                     saw = True
                 else:
                     return False
